@@ -10363,6 +10363,8 @@ func (l *Lowerer) resolveType(typ parser.Type) (ir.TypeHandle, error) {
 				}
 				constSize := uint32(n)
 				size.Constant = &constSize
+			} else if name, found := l.firstUndeclaredIdent(t.Size); found {
+				return 0, fmt.Errorf("array size: unresolved identifier: %s", name)
 			}
 		}
 		// Compute element stride for SPIR-V ArrayStride decoration.
